@@ -321,6 +321,22 @@ def run(ctx):
                         dom = cfg.dominators(pa)
                         latch = [x for x in body if any(to == h for to, _ in pa.succs(x))]
                         uncond = all(b in dom.get(l, ()) for l in latch)
+                        # ... unless the loop is LEFT as soon as the token just built is `--` (the rest is handled elsewhere)
+                        leaves_on_dd = False
+                        is_dd_call = lambda c: ir.unwrap(c).get("k") == "call" and short(ir.unwrap(c).get("name") or "") == "is_double_dash"
+                        for xb in body:
+                            for to, lab in pa.succs(xb):
+                                if to not in body and xb != h:
+                                    # the exit edge itself is the `--` edge, or it is only reachable through one
+                                    c0 = pa.term(xb).get("cond")
+                                    if c0 is not None:
+                                        c1, neg = cfg.strip_not(c0)
+                                        if is_dd_call(c1) and lab == ("false" if neg else "true"):
+                                            leaves_on_dd = True
+                                    if cfg.dominated_by_edge(pa, xb, is_dd_call):
+                                        leaves_on_dd = True
+                        if leaves_on_dd:
+                            uncond = False
                         ctx.check(not (can_raise and uncond), "R12.6", pa, "eager-token-validation",
                                   "parse(argc, argv) constructs a user_input (whose constructor rejects malformed dash tokens) for every argv[i] "
                                   "before the token loop runs: tokens after `--` such as `-`, `---x`, `-=x` are rejected instead of becoming positionals",
